@@ -186,5 +186,9 @@ def run(ck, P):
     ck.ob("C15.5-RESERVED", "Lib/core/ps.c:send_msg callers", {e.fn.name for e in sm} == {"m_mod_ps_tell", "m_mod_ps_publish"},
           "send_msg called by %s (tell passes a NULL topic)" % sorted({e.fn.name for e in sm}), nontrivial=False)
 
+    ck.rule("C15.6-FLAG-BITS", "R-FLAG-BITS: m_mod_flags (deny / persist / replace / ownership bits) are single distinct bits", floor=1)
+    from props.flags import flag_bits
+    flag_bits(ck, P, "C15.6-FLAG-BITS", "m_mod_flags", "Lib/core")
+
     ck.not_decided += ["'at every nesting depth' as a dynamic statement (nested hook exits reset curr_mod to NULL rather than to the outer module; no history found "
                        "in which a denied call succeeds)"]
